@@ -35,6 +35,11 @@ Catalogue ==
         Rec(<<Foobar>>, 16, 3, <<<<<<121>>>>>>), Rec(<<Foo, Bar>>, 8, 1, <<<<Bar>>>>), Rec(<<Bar>>, 15, 1, <<<<0, 5>>, <<Foo, Bar>>>>),
         Rec(<<My, Local>>, 1, 4, <<<<10, 9, 9, 9>>>>)}
 
+\* expiry mode works on a handful of records so that the same record is received again and again
+ExpiryCat == {r \in Catalogue : r.type = 1 /\ r.rd = <<<<10, 0, 0, 1>>>> /\ r.name \in {<<Mysrv, Local>>, <<A1, Mysrv, Local>>, <<Foobar>>}}
+             \cup {r \in Catalogue : r.type = 33 /\ r.rd[4] = <<Foobar>>}
+ExpiryNames == {r.name : r \in ExpiryCat}
+
 VARIABLES hist, n, done
 vars == <<hist, n, done>>
 Init == hist = <<>> /\ n = 0 /\ done = FALSE
@@ -62,14 +67,22 @@ Op(x) ==
       [] OTHER -> [op |-> "reply", id |-> RandomElement({0, 7, 65535}),
                    qd |-> IF RandomElement({1, 2, 3}) = 1 THEN <<RandQuestion(x), RandQuestion(x)>> ELSE <<RandQuestion(x)>>]
   ELSE
-    CASE die <= 3 -> [op |-> "add_auth", rec |-> RandRec(x)]
+    LET seen == {x[i].rec : i \in {j \in 1 .. Len(x) : x[j].op = "add_cached"}}
+        again == IF seen = {} THEN RandomElement(ExpiryCat) ELSE RandomElement(seen)
+        shortTtl == TtlBytes(RandomElement({0, 1, 1, 2, 2})) IN
+    CASE die <= 2 -> [op |-> "add_auth", rec |-> RandomElement(ExpiryCat)]
+      [] die <= 6 -> [op |-> "add_cached",
+                      rec |-> [RandomElement(ExpiryCat) EXCEPT !.ttl = TtlBytes(RandomElement({0, 1, 2, 1000, 1000, 1000})),
+                                                               !.cf = RandomElement({FALSE, FALSE, FALSE, TRUE})]]
+      \* the same record received again with a different (often shorter) lifetime
       [] die <= 9 -> [op |-> "add_cached",
-                      rec |-> [RandRec(x) EXCEPT !.ttl = TtlBytes(RandomElement({0, 1, 2, 1000})), !.cf = RandomElement({FALSE, FALSE, TRUE})]]
-      [] die = 10 -> [op |-> "remove", rec |-> RandRec(x)]
-      [] die = 11 -> IF RandomElement({1, 2, 3}) = 1 THEN [op |-> "clear"] ELSE [op |-> "sleep", ms |-> 300]
-      [] die <= 15 -> [op |-> "sleep", ms |-> RandomElement({300, 600, 900, 1200})]
-      [] OTHER -> [op |-> "query", name |-> RandomElement(Names),
-                   filter |-> RandomElement({"auth", "auth_sub", "cached", "cached", "all"})]
+                      rec |-> [again EXCEPT !.ttl = IF RandomElement({1, 2, 3}) = 1 THEN TtlBytes(1000) ELSE shortTtl,
+                                            !.cf = RandomElement({FALSE, FALSE, TRUE})]]
+      [] die = 10 -> [op |-> "remove", rec |-> RandomElement(ExpiryCat)]
+      [] die = 11 -> IF RandomElement(1 .. 4) = 1 THEN [op |-> "clear"] ELSE [op |-> "sleep", ms |-> 300]
+      [] die <= 15 -> [op |-> "sleep", ms |-> RandomElement({300, 600, 900, 1200, 1200})]
+      [] OTHER -> [op |-> "query", name |-> IF seen = {} THEN RandomElement(ExpiryNames) ELSE again.name,
+                   filter |-> RandomElement({"auth", "auth_sub", "cached", "cached", "cached", "all"})]
 
 Step == ~done /\ n < MaxSteps /\ hist' = Append(hist, Op(hist)) /\ n' = n + 1 /\ UNCHANGED done
 Finish == ~done /\ n >= 3 /\ (n = MaxSteps \/ RandomElement(1 .. 8) = 1) /\ done' = TRUE /\ UNCHANGED <<hist, n>>
